@@ -38,6 +38,10 @@ Print Assumptions C14_range_parsed_is_well_formed.
 Theorem C14_range_header_to_interval : forall h r full, parse h = Some r -> check r full = rfc_interval r full.
 Proof. exact header_to_interval. Qed.
 Print Assumptions C14_range_header_to_interval.
+(* and is printed back in a spelling that parses to the same range (leading zeros are the only thing lost) *)
+Theorem C14_range_parse_print_parse : forall h r, parse h = Some r -> parse (to_header r) = Some r.
+Proof. exact parse_print_parse. Qed.
+Print Assumptions C14_range_parse_print_parse.
 Example C14_range_grammar_examples :
   in_grammar (b "bytes=0-499") (RInt 0 (Some 499)) /\ in_grammar (b "bytes=9500-") (RInt 9500 None)
   /\ in_grammar (b "bytes=-500") (RSuffix 500)
